@@ -416,3 +416,48 @@ V("C47-cache-before-error","C47","cmd/neofs-node/container.go","""	epoch, err :=
 V("C47-paid-on-unpaid-event","C47","cmd/neofs-node/container.go","""			p.statuses[cID] = int64(ev.Epoch)
 		} else {""","""			p.statuses[cID] = -1
 		} else {""",rule="C47.R6")
+
+# ---- C02
+V("C02-revive-readds-phy","C02",MB+"revive.go","""	switch gcStatus {
+	case statusTombstoned, statusGCMarked:
+		err := updateCounter(metaC.Bucket(), payloadCounter, int64(size))""","""	if err := updateCounter(metaC.Bucket(), phyCounter, 1); err != nil {
+		return err
+	}
+	switch gcStatus {
+	case statusTombstoned, statusGCMarked:
+		err := updateCounter(metaC.Bucket(), payloadCounter, int64(size))""",rule="C02.R1")
+V("C02-mark-decrements-phy","C02",MB+"inhume.go","""		err = updateCounter(metaBucket, gcCounter, int64(counterDiff.NewGarbage))""","""		if err = updateCounter(metaBucket, phyCounter, -int64(counterDiff.NewGarbage)); err != nil {
+			return err
+		}
+		err = updateCounter(metaBucket, gcCounter, int64(counterDiff.NewGarbage))""",rule="C02.R1")
+V("C02-delete-ts-under-lock","C02",MB+"metadata.go","""	case object.TypeTombstone:
+		diff.TS--
+	case object.TypeLink:
+		diff.Link--
+	case object.TypeLock:
+		diff.Lock--""","""	case object.TypeTombstone:
+		diff.Lock--
+	case object.TypeLink:
+		diff.Link--
+	case object.TypeLock:
+		diff.TS--""",rule="C02.R2")
+V("C02-containerinfo-wrap","C02",MB+"containers.go","""	if phy > gc {
+		res.ObjectsNumber = phy - gc
+	}""","""	if phy != gc {
+		res.ObjectsNumber = phy - gc
+	}""",rule="C02.R3")
+V("C02-silent-containerinfo-geq","C02",MB+"containers.go","""	if phy > gc {""","""	if phy >= gc {""",expect="silent")
+V("C02-unfloored-sub","C02",MB+"counter.go","counter -= min(counter, uint64(-delta))","counter -= uint64(-delta)",rule="C02.R3")
+V("C02-direct-key-write","C02",MB+"put.go","""	err = applyDiff(metaBkt, diff)
+	if err != nil {""","""	if nestingLevel > 0 {
+		_ = metaBkt.Put([]byte{metaPrefixRootCounter}, make([]byte, 8))
+	}
+	err = applyDiff(metaBkt, diff)
+	if err != nil {""",rule="C02.R1")
+V("C02-link-counted-as-root","C02",MB+"put.go","""func handleLinkObject(diff *CountersDiff) error {
+	diff.Link++""","""func handleLinkObject(diff *CountersDiff) error {
+	diff.Root++""",rule="C02.R1")
+V("C02-shard-metrics-before-error","C02","pkg/local_object_storage/shard/inhume.go","""	inhumed, err := s.metaBase.MarkGarbage(cnr, addrs, mark)
+	if err != nil {""","""	inhumed, err := s.metaBase.MarkGarbage(cnr, addrs, mark)
+	s.addObjectCounter(gcObjType, inhumed.NewGarbage)
+	if err != nil {""",rule="C02.R4")
